@@ -30,6 +30,7 @@ RULE = (
     ">= 2 points whose last point differs from the reference configuration"
 )
 RULE += " Rigid static problems may carry initial velocities and Kelvin-Voigt dampers (a static solution must not see them)."
+RULE += " The truss arc-length runs are repeated with one corrector solve forced not to converge (F1): raise, or equilibria only and an early stop that says so."
 COMPONENTS = {
     "real": ["solver.statics.Newton / Riks", "fsolve", "all Cosserat rod formulations", "RigidConnection, Force, B_Moment, springs, Sphere2Plane", "System"],
     "stub": ["tqdm -> SimProgress (load-step seam)", "Truss2D duck-typed contribution (from the repository's own test)"],
@@ -130,6 +131,10 @@ def gen(rng, tier, index):
         plan["truss"] = {"k": float(rng.uniform(0.5, 2)), "phi0": float(rng.uniform(0.5, 1.0)), "w": 1.0}
         plan["la_arc0"] = float(rng.choice([1e-6, 1e-4, 1e-3]))
         plan["span"] = [-1.0, float(rng.uniform(0.2, 0.8))]
+    if kind == "riks_truss":
+        # fault F1 in the arc-length solver: one corrector solve (chosen among those the fault-free run makes) never
+        # converges
+        plan["riks_fault"] = int(index // len(KINDS))
     return plan
 
 
@@ -439,8 +444,52 @@ def execute(plan, out, log):
             raise
         except (AssertionError, RuntimeError, ValueError, np.linalg.LinAlgError, FloatingPointError) as e:
             raise Discard(f"solver_raised:{kind}:{type(e).__name__}")
+    if kind == "riks_truss" and plan.get("riks_fault") is not None and not out["violations"]:
+        riks_fault_run(plan, sim, sol, opts, out, log)
     out["nontrivial"] = out["steps"] >= 2 and moved_last > 1e-6
     out["abstract"] = repr((kind, sig, plan["n_load_steps"], plan.get("fault_step"), plan["tol"], plan.get("placed")))
+
+
+def riks_fault_run(plan, pilot_sim, pilot_sol, opts, out, log):
+    """The same arc-length run with one corrector solve forced not to converge: the solver raises, or whatever it
+    returns consists of equilibria and a run that stops early says so."""
+    from cardillo import System
+    from cardillo.solver import Riks
+
+    insts = [(i[0], i[1], i[2]) for i in pilot_sim.instances if i[0] == "fsolve"]
+    if len(insts) < 4:
+        return
+    p = insts[2 + plan["riks_fault"] % (len(insts) - 2)]
+    sim = Sim(log, faults=[p])
+    sol = exc = None
+    with sim.installed():
+        system = System()
+        tr = plan["truss"]
+        system.add(Truss2D(tr["k"], tr["phi0"], tr["w"]))
+        system.assemble()
+        try:
+            sol = Riks(system, la_arc_span=np.array(plan["span"]), la_arc0=plan["la_arc0"], iter_goal=3, max_load_steps=200, options=opts).solve()
+        except (AssertionError, RuntimeError, ValueError, np.linalg.LinAlgError, FloatingPointError) as e:
+            exc = e
+    if not sim.fired:
+        out["probes"]["riks_fault_not_reached"] += 1
+        return
+    out["faults"]["F1_newton_failure"] += 1
+    out["probes"]["riks_fault_fired"] += 1
+    if exc is not None:
+        out["probes"]["riks_fault_raised"] += 1
+        return
+    if not check_points(system, sol, opts, out, "riks/truss/after_failed_corrector", "Riks", first_is_initial=True, normalises=False):
+        return
+    own = [w for w in sim.warnings if not w[2].startswith("fsolve is not converged")]
+    if len(sol.t) < len(pilot_sol.t) and not own:
+        out["violations"].append(
+            violation(
+                "early_stop_silent",
+                "riks/truss",
+                f"corrector solve {p[2]} (step {p[1]}) was forced not to converge: Riks returned {len(sol.t)} points (the fault-free run: {len(pilot_sol.t)}) without raising and without a warning of its own",
+            )
+        )
 
 
 def shrink(plan):
